@@ -5959,8 +5959,11 @@ class FlowIRConcrete(object):
         """
         platform = platform or self._platform
 
+        # VV: a configuration which is computed with ignore_convert_errors may contain options that could not be
+        #     converted to their type, a strict query must not receive it from the cache
         need_fully_resolved_flowir = (raw is False and inject_missing_fields
-                                      and include_default and is_primitive is False)
+                                      and include_default and is_primitive is False
+                                      and ignore_convert_errors is False)
         try:
             cache_label = 'component:%s:stage%s:%s' % (platform, comp_id[0], comp_id[1])
         except Exception as e:
